@@ -5,6 +5,7 @@ import json
 import os
 import shlex
 import vlib
+import c09_real
 
 
 MANIFEST = dict(
@@ -18,18 +19,44 @@ MANIFEST = dict(
           "subgradients; per-sample buffers and the flatten/targets caches written range by range over stale content equal the direct "
           "computation. The extracted model and the naive definition are compared with the real library (1..16 threads x batch sizes "
           "around n x cached/uncached/refused caches x 4 scaling modes x warm-up call) within 1e-9 relative to the summed magnitudes; "
-          "all 17 losses go through an independent per-sample C++ oracle and a configuration-independence oracle."),
+          "all 17 losses go through an independent per-sample C++ oracle and a configuration-independence oracle. "
+          "EXTENSION (C09_Real_Defs.v / C09_Real.v, 22 more theorems): every registered loss is inside the model over R -- the 17 ids of "
+          "loss_t::all() are mapped to the real specifications of their kernels owned by C06 (polynomial kernels at Rops, cauchy / "
+          "logistic / exponential / savage / tangent / class-NLL); the objectives are restated over R (real sqrt(l2), divisors of the means "
+          "translated from reduce.h and gboost/function.cpp) and equal their definitions for EVERY valid schedule (the monoid theorem at "
+          "(R,+)); the gradient formulas of the source are proved to be the derivatives of the value (Coquelicot is_derive of the whole "
+          "objective: linear data term along every direction (dW,db) and along the coordinates W(c,j), b(c); l2 term; bias, scale -- chain "
+          "rule through s_i + x[cluster_i] w_i -- and grads objectives), composing C06's per-kernel is_derive theorems (class-NLL proved "
+          "here, with |code - ideal| <= 2^-52) with the affine maps; for the convex losses and the l1 term the gradient is a sub-gradient, "
+          "kinks included. The floating-point re-association clause is a theorem with an explicit constant: for ANY two reduction trees "
+          "over the same n terms in binary64 (Flocq FLT_exp(-1074,53), round to nearest even, standard model derived from Flocq for sums of "
+          "representable numbers) the results differ by at most 2 gamma_{n-1} sum|terms|, and the mean the code returns is within gamma_k "
+          "mean|terms| + 2^-1075 of the exact mean (k = #terms + #cleared accumulators); the driver evaluates exactly this bound (extracted "
+          "fp_mean_okb, exact rationals, proved sound) on the measured per-sample terms of the three boosting objectives for every "
+          "evaluation and every pair of configurations (it is ~1e-14, five orders below the property's 1e-9). Tie of the real model: per "
+          "run, small datasets x all 17 losses; for every transcendental loss the value and a gradient coordinate of all four objectives "
+          "are enclosed by kernel-checked CoqInterval lemmas within 1e-11 (1 + sum|terms|) of the real specification at the exact inputs; "
+          "an independent closed-form long-double oracle and a finite-difference oracle (gradient = derivative of the value) produce "
+          "concrete replays."),
     note=("Coq kernel; translator (17 kernels of reduce.h, linear/function.{h,cpp}, gboost/function.cpp, dataset/iterator.cpp + 9 of "
           "parallel.h); extraction with ExtrOcamlZBigInt (Zarith); harness against the library built from the working tree + OCaml "
           "driver; floating-point re-association is outside the theorems (compared within the property's 1e-9); sqrt(l2) is an "
-          "argument of the model; transcendental losses are searched only; data races are C18."),
+          "argument of the Q model (the R model uses the real sqrt); data races are C18. Extension: + 2 translated divisor kernels; C06_Defs / "
+          "C06_Proofs / C06_Deriv (specifications and is_derive theorems of the loss kernels, committed files, read-only) and "
+          "generated/Src_c06_flags.v are dependencies; Coquelicot, Flocq (Relative, Plus_error), CoqInterval; tools/checks/c09_real.py "
+          "(lemma generator, 60-digit decimal evaluation for the reported error ratio only); the transcendental losses agree with their "
+          "real specification at the sampled points of each run (interval lemmas), not for all inputs; no overflow is assumed by the "
+          "floating-point theorem (unbounded-exponent FLT format); the linear objective's terms go through Eigen's GEMM and are not "
+          "measured: its floating-point distance stays at the property's 1e-9."),
     technique="Coq proof over Q of a translated+extracted model, differential correspondence within the property's tolerance, "
-              "direct property oracles on the implementation",
+              "direct property oracles on the implementation; extension: Coq proof over R (Coquelicot derivatives, Flocq rounding-error "
+              "analysis of arbitrary reduction trees), per-run kernel-checked interval enclosures, proved bound evaluated by extracted code",
     design="DESIGN.md section 2, C09")
 
 VARIANTS = ["rel"]
 
 CASES = {"quick": (1, 400), "thorough": (12, 500)}   # (chunks, cases per chunk)
+REAL_CASES = {"quick": 34, "thorough": 340}          # (extension) small cases of the stage "realspec": 2 / 20 per registered loss id
 COUNTERS = ("cases", "configs", "evals", "model_lines", "ambiguous", "exact_cases", "missing_cells")
 HISTS = ("threads", "modes", "rows", "cached", "losses", "batch", "subset")
 
@@ -61,6 +88,44 @@ def _build_driver():
         if rc != 0:
             raise vlib.CheckError("ocaml build of c09_driver failed:\n%s" % out[-3000:])
     return exe
+
+
+def _ensure_c06_deps():
+    """C09_Real.v imports C06's specifications and is_derive theorems; C06_Proofs.v needs coq/generated/Src_c06_flags.v, which
+    tools/checks/c06.py generates. An alternate tree (VERIF_REPO) starts without it: take the main tree's last good file (the flags
+    are C06's business; a change of them is reported by ./check C06)."""
+    gen = os.path.join(vlib.COQ, "generated")
+    path = os.path.join(gen, "Src_c06_flags.v")
+    if os.path.exists(path):
+        return
+    os.makedirs(gen, exist_ok=True)
+    main = os.path.join(vlib.ROOT, "coq", "generated", "Src_c06_flags.v")
+    if os.path.exists(main) and os.path.abspath(main) != os.path.abspath(path):
+        open(path, "w").write(open(main).read())
+        return
+    try:
+        import c06
+        c06.gen_flags()
+    except Exception as ex:  # noqa: BLE001 -- reported by the Coq build that follows
+        vlib.log("C09: cannot generate Src_c06_flags.v: %s" % ex)
+
+
+def _real_stage(r, exe, tier):
+    """(extension) stage "realspec": small datasets, every registered loss; returns dict(lines, fails, done, rc, registry)"""
+    n = REAL_CASES.get(tier, REAL_CASES["quick"])
+    rc, out = vlib.sh([exe, "real", str(n), "0"], timeout=1500, env={"VERIF_SEED": str(r.seed)})
+    lines = [l for l in out.split("\n") if l]
+    reg = [l for l in lines if l.startswith("RLOSSES ")]
+    return {"rc": rc, "lines": lines, "fails": [l for l in lines if l.startswith("FAIL ")], "done": [l for l in lines if l.startswith("DONE ")],
+            "registry": reg[0].split("ids=", 1)[1].split(",") if reg else [], "cases": n}
+
+
+def _coq_registered():
+    """the names of C09_Real_Defs.registered_losses"""
+    import re
+    src = open(os.path.join(vlib.ROOT, "coq", "theories", "C09_Real_Defs.v")).read()
+    m = re.search(r"Definition registered_losses.*?:=\s*\[(.*?)\]\.", src, re.S)
+    return re.findall(r'\("([^"]+)"', m.group(1)) if m else []
 
 
 def setup():
@@ -106,7 +171,7 @@ def _run_cases(exe, drv, args, seed):
     res = {"rc": rc, "lines": lines, "fails": [l for l in lines if l.startswith("FAIL ")], "mism": [], "checked": 0,
            "done": [l for l in lines if l.startswith("DONE ")], "drc": 0, "mout": "", "model_done": ""}
     if drv:
-        feed = "\n".join(l for l in lines if l.startswith(("DATA ", "LIN ", "BIAS ", "SCALE ", "GRADS "))) + "\n"
+        feed = "\n".join(l for l in lines if l.startswith(("DATA ", "LIN ", "BIAS ", "SCALE ", "GRADS ", "AVALS ", "ASSOC "))) + "\n"
         rc2, mout = vlib.sh([drv], input=feed, timeout=3000)
         res["drc"], res["mout"] = rc2, mout[-2000:]
         for l in mout.split("\n"):
@@ -122,6 +187,21 @@ def _replay(path):
     d = json.load(open(path))
     exe = vlib.build_harness("c09_objectives", "rel", need_lib=True)
     drv = _build_driver()
+    if d.get("real_case_index") is not None:
+        rc, out = vlib.sh([exe, "realcase", str(d["real_case_index"])], timeout=600, env={"VERIF_SEED": str(d.get("seed", 20260926))})
+        lines = [l for l in out.split("\n") if l]
+        bad = [l for l in lines if l.startswith("FAIL ")]
+        if not bad and d.get("lemma"):
+            cs, _ = c09_real.cases(lines, "thorough", d.get("seed", 20260926))
+            class _R:      # the gate only needs the seed
+                seed = d.get("seed", 20260926)
+            iv = c09_real.gate(_R, cs, "thorough")
+            bad = ["interval lemma fails: %s %s: %s" % (c["object"], c["what"], c["stmt"][:400]) for c in iv["failed"]]
+        print("\n".join(l[:1000] for l in bad[:10]) or "real case %s: no failure" % d["real_case_index"])
+        if bad or rc != 0:
+            print("VIOLATION property=C09 replay=%s" % path)
+            return 1
+        return 0
     case = d.get("case_index")
     if case is None:
         print("nothing to replay in %s" % path)
@@ -139,6 +219,7 @@ def run(tier, replay=None):
     if replay:
         return _replay(replay)
     r = vlib.Run("C09", tier)
+    _ensure_c06_deps()
     cres = vlib.coq_check("C09", targets=["theories/Extract_C09.vo", "theories/Properties_C09.vo"])
     exe = vlib.build_harness("c09_objectives", "rel", need_lib=True)
     drv = None
@@ -154,7 +235,7 @@ def run(tier, replay=None):
     impl_fail, mism = [], []
     distinct = set()
     samples = []
-    evaluations = checked = coords = amb_skipped = 0
+    evaluations = checked = coords = amb_skipped = assoc = assoc_pairs = 0
     cmd_case = lambda c: "VERIF_SEED=%d %s case %d %s" % (r.seed, exe, c, tier)
     for ch in range(nchunks):
         res = _run_cases(exe, drv, [tier, ncases, ch * ncases], r.seed)
@@ -162,7 +243,7 @@ def run(tier, replay=None):
         oplines = [l for l in lines if l.startswith(("LIN ", "BIAS ", "SCALE ", "GRADS "))]
         for l in lines:
             op = l.split(" ", 1)[0]
-            if op in ("DATA", "LIN", "BIAS", "SCALE", "GRADS", "FAIL"):
+            if op in ("DATA", "LIN", "BIAS", "SCALE", "GRADS", "FAIL", "AVALS", "ASSOC"):
                 ops[op] += 1
         impl_fail += res["fails"]
         mism += res["mism"]
@@ -171,6 +252,8 @@ def run(tier, replay=None):
             kv = _kv(res["model_done"])
             coords += int(kv.get("coordinates", 0))
             amb_skipped += int(kv.get("ambiguous_skipped", 0))
+            assoc += int(kv.get("assoc", 0))
+            assoc_pairs += int(kv.get("assoc_pairs", 0))
         if res["rc"] != 0 or not res["done"]:
             r.violation("crash", {"kind": "implementation-crash / exception in the harness", "exit": res["rc"], "mode": tier,
                                   "last_operations": [l[:300] for l in oplines][-5:], "tail": "\n".join(l[:500] for l in lines[-6:]),
@@ -222,10 +305,52 @@ def run(tier, replay=None):
         case = _case_of(shortest)
         # the model is the proved definition: a value / gradient of the library that leaves it by more than the property's
         # tolerance on this very input is a concrete failing input (the data of the case is re-generated by the replay command)
-        r.violation("corr-%s" % kind, {"kind": "implementation differs from the exact model / definition beyond 1e-9 relative",
+        r.violation("corr-%s" % kind, {"kind": ("the value leaves the mean of its own per-sample terms by more than the PROVED re-association bound "
+                                                "(C09_fp_mean: gamma_k mean|terms| + 2^-1075)" if kind.startswith("assoc") else
+                                                "implementation differs from the exact model / definition beyond 1e-9 relative"),
                                        "case": shortest[:6000], "case_index": case, "mode": tier, "mismatches_of_this_kind": len(same),
                                        "replay_cmd": (cmd_case(case) if case is not None else "") + " | " + str(drv)},
                     no_input=kind == "driver")
+    # ---- (extension) stage "realspec": every registered loss against the real-valued specification -----------------------
+    real = _real_stage(r, exe, tier)
+    cmd_real = lambda c: "VERIF_SEED=%d %s realcase %s" % (r.seed, exe, c)
+    if real["rc"] != 0 or not real["done"]:
+        r.violation("real-crash", {"kind": "implementation-crash / exception in the harness (real stage)", "exit": real["rc"],
+                                   "tail": "\n".join(l[:500] for l in real["lines"][-6:]),
+                                   "replay_cmd": "VERIF_SEED=%d %s real %d 0" % (r.seed, exe, real["cases"])}, fingerprint="crash")
+    rseen = set()
+    for l in real["fails"]:
+        clause = l.split(" ", 2)[1]
+        if clause in rseen or len(rseen) >= 4:
+            continue
+        rseen.add(clause)
+        same = [x for x in real["fails"] if x.split(" ", 2)[1] == clause]
+        shortest = min(same, key=len)
+        cid = shortest.split(" ", 3)[2]
+        r.violation("impl-%s" % clause, {"kind": "the library's objective differs from the independent closed-form (long double) evaluation of its "
+                                                 "definition / its gradient is not the derivative of the value", "clause": clause,
+                                         "case": shortest[:6000], "real_case_index": int(cid[1:]) if cid[1:].isdigit() else None, "mode": tier,
+                                         "failures_of_this_clause": len(same),
+                                         "replay_cmd": cmd_real(cid[1:]) + " | grep '^FAIL'"})
+    coq_names = _coq_registered()
+    if real["registry"] and (real["registry"] != c09_real.REGISTERED or coq_names != c09_real.REGISTERED):
+        r.violation("loss-registry", {"kind": "the registry of the library (loss_t::all().ids()) is not the table C09_Real_Defs.registered_losses",
+                                      "library": real["registry"], "coq": coq_names, "expected": c09_real.REGISTERED}, no_input=True)
+    iv_list, iv_skipped = c09_real.cases(real["lines"], tier, r.seed)
+    iv = {"lemmas": 0, "failed": [], "seconds": 0.0, "error": None, "kept": []}
+    if cres["ok"] or os.path.exists(os.path.join(vlib.COQ, "theories", "C09_Real_Defs.vo")):
+        iv = c09_real.gate(r, iv_list, tier)
+    for i, c in enumerate(iv["failed"][:4]):
+        cid = c["case"]
+        r.violation("realspec-%d" % i,
+                    {"kind": "the number returned by the library is not within 1e-11 * (1 + sum of |terms|) of the real-valued specification "
+                             "of the objective on this input: the interval lemma does not check",
+                     "object": c["object"], "number": c["what"], "case": c["line"][:3000], "lemma": "Lemma %s : %s." % (c["name"], c["stmt"][:3000]),
+                     "measured_error": c["err"], "tolerance": c["tol"], "real_case_index": int(cid[1:]) if cid[1:].isdigit() else None,
+                     "replay_cmd": cmd_real(cid[1:]) + "   # then: cd %s && coqc -q -Q theories LN -Q generated LNGen -w -all %s"
+                                   % (vlib.COQ, (iv.get("kept") or ["<generated file>"])[0])})
+    if iv["error"] and not iv["failed"]:
+        r.violation("realspec-gate", {"kind": "interval file failed to compile", "detail": iv["error"][-3000:]}, no_input=True)
     vlib.handle_coq_failure(r, cres)
     vlib.proof_coverage(r, cres, "make -C coq theories/Properties_C09.vo && coqc theories/Properties_C09.v (Print Assumptions)",
                         ["tools/translate.py (17 integer kernels of reduce.h, linear/function.{h,cpp}, gboost/function.cpp, "
@@ -233,7 +358,11 @@ def run(tier, replay=None):
                          "extraction: ExtrOcamlBasic + ExtrOcamlZBigInt (positive/Z mapped to Zarith big integers)",
                          "ocaml/c09_driver.ml (exact double->Q conversion), harness/c09_objectives.cpp (tolerances, naive oracle), g++ -O2",
                          "the loss kernels of the library evaluated on ONE sample are the reference of the naive oracle (C06 covers them)",
-                         "sqrt(l2) is not modelled: the root computed by std::sqrt is an argument of the model"])
+                         "sqrt(l2) is not modelled in the Q model: the root computed by std::sqrt is an argument of the model",
+                         "extension: tools/checks/c09_real.py (generator of the per-run interval lemmas; the lemmas themselves are kernel-checked), "
+                         "CoqInterval, Coquelicot, Flocq; C06_Defs/C06_Proofs/C06_Deriv + generated/Src_c06_flags.v (C06's files, imported)",
+                         "extension: the closed-form long-double loss kernels of the harness (std::expl/logl/atanl) are the reference of the "
+                         "real-stage oracle; binary64 addition/division of the machine = Flocq's round-to-nearest-even FLT model (no overflow)"])
     cov = r.coverage
     cov["evaluations"] = evaluations
     cov["correspondence_lines_checked"] = checked
@@ -254,13 +383,32 @@ def run(tier, replay=None):
         cov[k] = totals[k]
     for k in HISTS:
         cov[k + "_histogram"] = dict(hists[k])
+    rd = _kv(real["done"][0]) if real["done"] else {}
+    cov["real_cases"] = int(rd.get("real_cases", 0))
+    cov["real_objective_lines"] = int(rd.get("real_lines", 0))
+    cov["real_finite_difference_checks"] = int(rd.get("real_fd", 0))
+    cov["real_losses_histogram"] = _hist(rd.get("losses", ""))
+    cov["real_impl_failures"] = len(real["fails"])
+    cov["interval_lemmas"] = iv["lemmas"]
+    cov["interval_failed"] = len(iv["failed"])
+    cov["interval_seconds"] = iv["seconds"]
+    cov["interval_skipped"] = dict(iv_skipped)
+    cov["interval_worst_ratio"] = max([c["ratio"] for c in iv_list] or [0.0])
+    cov["interval_ratio_meaning"] = ("max over the enclosed numbers of |specification (60-digit decimal evaluation) - returned double| / "
+                                     "tolerance, tolerance = 1e-11 * (1 + sum of |terms|)")
+    cov["interval_by_object"] = dict(collections.Counter(c["object"] for c in iv_list))
+    cov["assoc_bound_checks"] = assoc
+    cov["assoc_pair_checks"] = assoc_pairs
     cov["mismatches"] = len(mism)
     cov["impl_direct_failures"] = len(impl_fail)
     cov["samples"] = samples
     cov["unproved_clauses_searched"] = [
         "floating-point: |library value - exact definition| <= 1e-9 * (summed magnitudes) for value and every gradient coordinate",
-        "the 13 transcendental / non-rational losses (cauchy, classnll, savage, tangent, logistic, exponential, pinball): naive "
-        "per-sample C++ loop only",
+        "the transcendental losses (cauchy, classnll, savage, tangent, logistic, exponential) on the LARGE random datasets: naive "
+        "per-sample C++ loop through the library's own kernels; on the small datasets of the real stage: kernel-checked interval "
+        "enclosures of the real specification (sampled points, not all inputs) + independent closed-form oracle",
+        "floating-point distance of the LINEAR objective to its definition (terms pass through Eigen's GEMM: 1e-9 of the summed "
+        "magnitudes); for the three boosting objectives the proved bound gamma_k mean|terms| + 2^-1075 is checked instead",
         "independence of the result from (threads, batch, caches) on the real thread pool (the theorem is about the model's schedules)",
         "the iterators deliver bit-identical inputs / targets whether cached, uncached or with a refused cache",
         "gradient of a non-smooth loss when a sample sits within 1e-9 of a kink (skipped as ambiguous, counted)"]
